@@ -21,20 +21,20 @@ fn kani_concrete_playback_c06_cap_kernel_missing_parts_6027992492434505959() {
 }
 
 #[test]
-fn kani_concrete_playback_c06_cap_kernel_missing_parts_16026435384734599504() {
+fn kani_concrete_playback_c06_cap_kernel_missing_parts_6499718920276980091() {
     let concrete_vals: Vec<Vec<u8>> = vec![
         // 1
         vec![1],
-        // -28669
-        vec![3, 144],
-        // 24573
-        vec![253, 95],
         // 0
         vec![0, 0],
-        // 1
-        vec![1, 0],
-        // -32767
-        vec![1, 128],
+        // 24577
+        vec![1, 96],
+        // 32766
+        vec![254, 127],
+        // -32768
+        vec![0, 128],
+        // -28672
+        vec![0, 144],
     ];
     kani::concrete_playback_run(concrete_vals, c06_cap_kernel_missing_parts);
 }
